@@ -7,7 +7,8 @@ Selector spec (JSON):
      "focus": {"var", "as"} | None,     # bound in the LAST level
      "mode": "immediate" | "total"}
     LEVEL = {"fn": qualname, "recv": instance name | None,
-             "caps": [CAP...], "sibs": [{"fn", "caps": [CAP...]}...]}
+             "caps": [CAP...], "sibs": [SIB...]}
+    SIB   = {"fn", "caps": [CAP...], "sibs": [SIB...]}   # f(a, g(b, h(c))): g and h are SIBs
     CAP   = {"var", "as", "cond": None | ["eq", v] | [pred, args...]}
 
 Trace: the list of Tracer events (sim/tracer.py).
@@ -55,6 +56,31 @@ def cap_src(cap, focus=False, dbl=False):
     return s
 
 
+def walk_sibs(node):
+    """Every sibling node below a level (or below a sibling), depth first."""
+    for sb in node.get("sibs", []):
+        yield sb
+        yield from walk_sibs(sb)
+
+
+def sib_src(sb):
+    parts = [cap_src(c) for c in sb.get("caps", [])]
+    parts += [sib_src(x) for x in sb.get("sibs", [])]
+    return f"{sb['fn']}({', '.join(parts)})"
+
+
+def sib_actsets(node, parents, acts):
+    """[(sibling node, set of activation ids it stands for)] for every sibling below
+    ``node``: activations of the sibling's function called (directly or not) from an
+    activation its parent node stands for."""
+    out = []
+    for sb in node.get("sibs", []):
+        mine = {a.id for a in acts.values() if a.fn == sb["fn"] and (a.anc & parents)}
+        out.append((sb, mine))
+        out.extend(sib_actsets(sb, mine, acts))
+    return out
+
+
 def render(sel, style=0):
     """ptera selector string.  style 0: nested calls with '!'; style 1: the
     '>' notation where possible."""
@@ -68,8 +94,7 @@ def render(sel, style=0):
         lv = levels[j]
         parts = [cap_src(c) for c in lv.get("caps", [])]
         for sb in lv.get("sibs", []):
-            inner = ", ".join(cap_src(c) for c in sb["caps"])
-            parts.append(f"{sb['fn']}({inner})")
+            parts.append(sib_src(sb))
         if j == len(levels) - 1:
             if focus is not None:
                 parts.append(cap_src(focus, focus=True))
@@ -84,8 +109,7 @@ def render(sel, style=0):
         for j, lv in enumerate(levels):
             parts = [cap_src(c) for c in lv.get("caps", [])]
             for sb in lv.get("sibs", []):
-                inner = ", ".join(cap_src(c) for c in sb["caps"])
-                parts.append(f"{sb['fn']}({inner})")
+                parts.append(sib_src(sb))
             segs.append(
                 level_name(lv) + (f"({', '.join(parts)})" if parts else "")
             )
@@ -99,7 +123,7 @@ def capture_names(sel):
     for lv in sel["levels"]:
         for c in lv.get("caps", []):
             out.append(c.get("as") or c["var"])
-        for sb in lv.get("sibs", []):
+        for sb in walk_sibs(lv):
             for c in sb["caps"]:
                 out.append(c.get("as") or c["var"])
     if sel.get("focus"):
@@ -232,23 +256,15 @@ def immediate(sel, tracer, lo=0, hi=None, recv_ok=None):
                             cur = latest.get(A, {})
                             if cap["var"] in cur:
                                 d[cap.get("as") or cap["var"]] = cur[cap["var"]]
-                        for sb in lv.get("sibs", []):
+                        for sb, mine in sib_actsets(lv, {A}, acts):
                             for cap in sb["caps"]:
-                                best = None
-                                for (bi, bact, bfn, bvar, bval) in binds:
-                                    if (
-                                        bfn == sb["fn"]
-                                        and bvar == cap["var"]
-                                        and A in acts[bact].anc
-                                    ):
-                                        best = bval
-                                if best is not None or any(
-                                    bfn == sb["fn"]
-                                    and bvar == cap["var"]
-                                    and A in acts[bact].anc
+                                hits = [
+                                    bval
                                     for (bi, bact, bfn, bvar, bval) in binds
-                                ):
-                                    d[cap.get("as") or cap["var"]] = best
+                                    if bact in mine and bvar == cap["var"]
+                                ]
+                                if hits:
+                                    d[cap.get("as") or cap["var"]] = hits[-1]
                     if not ok:
                         continue
                     if _conds_hold(sel, d):
@@ -262,7 +278,7 @@ def all_caps(sel):
     caps = []
     for lv in sel["levels"]:
         caps += lv.get("caps", [])
-        for sb in lv.get("sibs", []):
+        for sb in walk_sibs(lv):
             caps += sb["caps"]
     if sel.get("focus"):
         caps.append(sel["focus"])
@@ -335,8 +351,8 @@ def total(sel, tracer, lo=0, hi=None):
             if j > 0:
                 cur = matches(lv["fn"], cur)
             collect(lv.get("caps", []), cur)
-            for sb in lv.get("sibs", []):
-                collect(sb["caps"], matches(sb["fn"], cur))
+            for sb, mine in sib_actsets(lv, cur, acts):
+                collect(sb["caps"], mine)
         names = set(capture_names(sel))
         if all(rec.get(n) for n in names) and _conds_hold(
             dict(sel, mode="total"), rec
@@ -379,10 +395,10 @@ def total_focus(sel, tracer, lo=0, hi=None):
                 for cap in lv.get("caps", []):
                     vals = [v for (i2, a2, f2, v2, v, _s) in binds if a2 == A and v2 == cap["var"] and i2 <= xi]
                     rec.setdefault(cap.get("as") or cap["var"], []).extend(vals)
-                for sb in lv.get("sibs", []):
+                for sb, mine in sib_actsets(lv, {A}, acts):
                     for cap in sb["caps"]:
                         vals = [v for (i2, a2, f2, v2, v, _s) in binds
-                                if f2 == sb["fn"] and v2 == cap["var"] and A in acts[a2].anc and i2 <= xi]
+                                if a2 in mine and v2 == cap["var"] and i2 <= xi]
                         rec.setdefault(cap.get("as") or cap["var"], []).extend(vals)
             names = set(capture_names(sel))
             if all(rec.get(n) for n in names):
